@@ -355,7 +355,12 @@ def _exp_ca(p):
         val = f(w[2][1], w[3][1])
         if val is None or not isinstance(g[1], Fraction):
             return "WRONG-VALUE: non-finite"
-        return "ok" if abs(g[1] - val) <= Fraction(1, 10 ** 12) * max(1, abs(val)) else f"WRONG-VALUE: {g[1]} expected {val}"
+        # the operands are doubles (their exact values are in the shadow): the fold is the correctly
+        # rounded result of ONE floating-point operation on them, i.e. within 2^-52 of the exact result
+        # relative to that result -- however small it is (an absolute tolerance would accept 0 for 3e-17)
+        if val == 0:
+            return "ok" if g[1] == 0 else f"WRONG-VALUE: {g[1]} expected 0"
+        return "ok" if abs(g[1] - val) <= Fraction(1, 2 ** 50) * abs(val) else f"WRONG-VALUE: {float(g[1])!r} expected {float(val)!r}"
 
     return exp, None
 
@@ -536,6 +541,9 @@ def instances(rng):
         if op == "/" and Fraction(c2) == 0:
             c2 = "4"
         yield Inst("CA" + op, "CA", f"{c1} {op} {c2}", "ca", {"op": op})
+    tiny = ["0.00000000000000001", "0.00000000000000002", "0.00000000000000004", "0.30000000000000004", "0.3", "0.0000001", "0.1", "0.2", "0.7", "1000000.5", "0.000000000000000000003"]
+    for op in "+-":
+        yield Inst("CA" + op, "CA", f"{rng.choice(tiny)} {op} {rng.choice(tiny)}", "ca", {"op": op}, contexts=["{}", "{} + q", "q * ({})", "({}) - q"])
     # ---- factor out
     v_ = rng.choice(VARS)
     e_ = rng.choice(EXPS)
